@@ -236,18 +236,24 @@ mutual
 end
 
 open Visitor in
+theorem visitFile_np (E : Ext) (ctx : ParseContext) (c fn p : Str) (f : File) :
+    NP (visitFile E ctx c fn p f) := by
+  unfold visitFile
+  simp only
+  split
+  · exact visitItems_np _ _ _ _ _
+  · exact rfl
+
+open Visitor in
 /-- **the model of `parser::parse` never panics**, in single- and multi-file mode -/
 theorem parseFile_np (E : Ext) (ctx : ParseContext) (pick) (c fn p : Str) (f : File) :
     NP (parseFile E ctx pick c fn p f) := by
   unfold parseFile
   split
   · exact rfl
-  · simp only
-    split
-    · apply np_bind _ _ (visitItems_np _ _ _ _ _)
-      intro d
-      repeat' split
-      all_goals exact rfl
-    · exact rfl
+  · apply np_bind _ _ (visitFile_np _ _ _ _ _ _)
+    intro d
+    repeat' split
+    all_goals exact rfl
 
 end TsV.NoPanic
